@@ -15,7 +15,9 @@ def swarm(rng, base):
                 "try": True, "p_try": rng.choice([0.2, 0.4]), "rfilter": True, "p_def": 0.7, "p_uncached": rng.choice([0.0, 0.25, 0.5]),
                 "p_sformula": rng.choice([0.0, 0.3]), "p_sprobe": 1.0, "p_objref": 0.0, "recalc": False, "depth": rng.choice([2, 3]),
                 "formula_error": rng.random() < 0.8, "n_kinds": rng.choice([2, 3]), "p_selfrec": 0.5,
-                "p_prior": rng.choice([0.0, 0.5, 1.0])})
+                "p_prior": rng.choice([0.0, 0.5, 1.0]), "p_guard": rng.choice([0.0, 0.0, 0.3, 0.5])})
+    if cfg["p_guard"]:
+        cfg["p_prior"] = 1.0
     return cfg
 
 
@@ -92,6 +94,13 @@ class Scenario:
                     plans.append({"faults": [
                         {"site": [sa[0], sa[1], sa[2], list(sa[3])], "occ": 0, "exc": frng.choice(KINDS[:4])},
                         {"site": [sb[0], sb[1], sb[2], list(sb[3])], "occ": 0, "exc": frng.choice(KINDS)}]})
+            if cfg.get("p_guard"):
+                # a clean-up block may run the failed call again: the same point failing a second time, differently
+                for _ in range(min(8, len(sites))):
+                    sa = sites[frng.randrange(len(sites))]
+                    plans.append({"faults": [
+                        {"site": [sa[0], sa[1], sa[2], list(sa[3])], "occ": 0, "exc": frng.choice(KINDS[:4])},
+                        {"site": [sa[0], sa[1], sa[2], list(sa[3])], "occ": 1, "exc": frng.choice(KINDS[:4])}]})
             for p in plans:
                 steps.append({"op": "fault", "plan": p})
         else:
@@ -173,7 +182,12 @@ class Scenario:
                     raise Violation("%s/wrapped-although-disabled/%s" % (self.pid, kind), desc)
             err = mx.get_error()
             inj = probe.LAST_RAISED[0]
-            if want[1] in probe.EXC and fired and fired[-1][1] == want[1]:
+            k = getattr(ev.last_exc, "fired_index", None)
+            if k is not None and want[1] in probe.EXC and k < len(probe.RAISED):
+                # the injected object that escaped (a later one may have been raised and handled in a clean-up block)
+                if err is not probe.RAISED[k]:
+                    raise Violation("%s/get_error-not-the-original/%s" % (self.pid, kind), dict(desc, got=repr(err)[:200]))
+            elif want[1] in probe.EXC and fired and fired[-1][1] == want[1] and k is None:
                 if err is not inj:
                     raise Violation("%s/get_error-not-the-original/%s" % (self.pid, kind), dict(desc, got=repr(err)[:200]))
             elif err is None or type(err).__name__ != want[1]:
